@@ -23,7 +23,7 @@ use vh::layermodel::*;
 use vh::report::{Args, Reporter};
 use vh::snapshot::{Node, Scratch, Snapshot};
 
-const NAMES: [&str; 2] = ["a", "b"];
+const NAMES: [&str; 2] = ["a.b", "a"];
 
 #[derive(Clone, Copy, Debug, PartialEq, Eq, Hash, Serialize, Deserialize)]
 pub enum Strat {
